@@ -143,6 +143,21 @@ fn run_script(script: &Value) -> Value {
             }
         }
         let after_mut = listing(&all, &cs, !lend);
+        // a mutable join TOGETHER with the storage: every amount is paired with the component of ITS entity
+        {
+            let st = world.read_storage::<CDense<0>>();
+            if lend {
+                let mut it = (&mut cs, &st).lend_join();
+                while let Some((t, c)) = it.next() {
+                    t.parts = format!("({}+{})", t.parts, c.cid());
+                }
+            } else {
+                for (t, c) in (&mut cs, &st).join() {
+                    t.parts = format!("({}+{})", t.parts, c.cid());
+                }
+            }
+        }
+        let after_mut2 = listing(&all, &cs, lend);
         // C19: ChangeSet::clear with a destructor that panics on its k-th call
         let fclear = script["fclear"].as_u64().unwrap_or(0) as u32;
         let mut fired = false;
@@ -199,20 +214,20 @@ fn run_script(script: &Value) -> Value {
                 }
             }
         }
-        (reff, with_store, after_mut, value, fclear, fired, exposed, post_clear)
+        (reff, with_store, after_mut, after_mut2, value, fclear, fired, exposed, post_clear)
     });
     let pj: Vec<Value> = pairs.iter().map(|(i, a)| json!([i, a])).collect();
     match r {
-        Ok((reff, with_store, after_mut, value, fclear, fired, exposed, post_clear)) => {
+        Ok((reff, with_store, after_mut, after_mut2, value, fclear, fired, exposed, post_clear)) => {
             drop(world);
             json!({"op":"CS","tid":script["tid"],"pairs":pj,"how":script["how"],"ref":reff,"with_store":with_store,
-                   "store":store_js,"after_mut":after_mut,"value":value,"take":take,"tag":tag,
+                   "store":store_js,"after_mut":after_mut,"after_mut2":after_mut2,"value":value,"take":take,"tag":tag,
                    "fclear":fclear,"fired":fired,"exposed":exposed,"post_clear":post_clear,
                    "refill": script.get("refill").cloned().unwrap_or_else(|| json!([[pairs[0].0, 77]])),
                    "ledger":ledger::dump(),"panic":""})
         }
         Err(msg) => json!({"op":"CS","tid":script["tid"],"pairs":pj,"ref":[],"with_store":[],"store":store_js,
-                           "after_mut":[],"value":[],"take":take,"tag":tag,"fclear":0,"fired":false,"exposed":[],"post_clear":[],"refill":[],
+                           "after_mut":[],"after_mut2":[],"value":[],"take":take,"tag":tag,"fclear":0,"fired":false,"exposed":[],"post_clear":[],"refill":[],
                            "ledger":ledger::dump(),"panic":msg}),
     }
 }
